@@ -227,6 +227,13 @@ impl Series1 {
                 if !m.is_finite() {
                     continue;
                 }
+                if m == 0.0 {
+                    // The segment is flat at the level: it meets the level along its whole length,
+                    // report both of its ends (dividing by the zero slope would give NaN)
+                    crossings.push(x0);
+                    crossings.push(x1);
+                    continue;
+                }
                 let x = x0 + (y_equals - v0) / m;
                 crossings.push(x);
             }
